@@ -400,7 +400,7 @@ fn real_main() {
     ctx.replayer("dsu-history", |v| run_case(&serde_json::from_value::<Case>(v.clone()).expect("case")));
     ctx.replayer("dsu-pattern", |v| run_pat(&serde_json::from_value::<Pat>(v.clone()).expect("pattern")));
     ctx.begin();
-    ctx.prop("histories", "dsu-history", ctx.n(6_000, 150_000), case(ctx.n(80, 300) as usize), run_case);
+    ctx.prop_split("histories", "dsu-history", ctx.n(6_000, 150_000), ctx.parts(), case(ctx.n(80, 300) as usize).boxed(), run_case);
     ctx.prop("short-histories", "dsu-history", ctx.n(6_000, 100_000), case(10), run_case);
     let stages: Vec<(u32, u64)> = if ctx.thorough() {
         vec![(100, 20), (1_000, 20), (10_000, 10), (100_000, 6), (1_000_000, 2)]
